@@ -9,6 +9,7 @@ pub mod c01;
 pub mod c16;
 pub mod c14;
 pub mod c08;
+pub mod c06;
 pub mod c07;
 pub mod c02;
 pub mod c03;
@@ -270,6 +271,7 @@ pub fn dispatch(cfg: &RunCfg, rep: &mut Report) -> bool {
     match cfg.prop.as_str() {
         "C01" => c01::run(cfg, rep),
         "C16" => c16::run(cfg, rep),
+        "C06" => c06::run(cfg, rep),
         "C14" => c14::run(cfg, rep),
         "C08" => c08::run(cfg, rep),
         "C07" => c07::run(cfg, rep),
